@@ -2,7 +2,10 @@
     Statements only; every proof is [exact <lemma of proof/C13_*.v>].
 
     The functions are those of model/C13_Model.v which the correspondence evaluates on every run
-    ([run] -> [step] -> [gc_iterative], [gc_fit], [lib_check], [cluster], [fit]).
+    ([run] -> [step] -> [gc_iterative], [gc_fit], [lib_check], [cluster], [fit]); since round 5 through the traced entry point
+    [runr] -> [runx] -> [stepx] -> [gc_iterative_tr], [gc_fit_tr], [lib_check_tr], [cluster_tr], [fit_tr] of model/C13_Trace.v, whose
+    results are those of the untraced functions (C13_trace_projection), on items whose graphs are the selection [project13] of
+    the raw attribute dictionaries.
     Premises shared by the theorems (the oracle contract of the isomorphism test, monitored by the harness:
     networkx VF2 with element/charge/order matchers is compared with a brute-force reference on every pair):
       [iso] is a decidable equivalence on the items satisfying [D] (e.g. well-formed graphs);
@@ -11,7 +14,7 @@
     Nothing else is assumed about [iso]: in particular the theorems cover the transitivity shortcut of the code
     (an item is compared only with the FIRST member of each class / with one stored template per class). *)
 From Coq Require Import List NArith ZArith Bool Arith Permutation.
-From SK Require Import lib.LGraph lib.C13_Partition model.C13_Model proof.C13_Proof proof.C13_More proof.C13_Iso proof.C13_Templates proof.C13_Clusters proof.C13_Before.
+From SK Require Import lib.LGraph lib.C13_Partition model.C13_Model model.C13_Trace proof.C13_Proof proof.C13_More proof.C13_Iso proof.C13_Templates proof.C13_Clusters proof.C13_Before proof.C13_Trace.
 Import ListNotations.
 
 (** 1. GraphCluster.fit / iterative_cluster: every item gets exactly one class (the list of classes has the length
@@ -346,3 +349,95 @@ Theorem C13_first_item_normalisation_before_repair_refuted :
   fst (cluster mix_iso AMixed [mix_a; mix_b; mix_c] []) = [0; 1; 1]%Z.
 Proof. exact first_item_normalisation_before_repair. Qed.
 Print Assumptions C13_first_item_normalisation_before_repair_refuted.
+
+(** ** (round 5) intermediate values: the sequence of isomorphism tests.  The correspondence evaluates the TRACED loops of
+    model/C13_Trace.v and compares, after every call, the pairs handed to graph_isomorphism in call order. *)
+
+(** the traced loops compute exactly what the loops of C13_Model.v compute -- for every isomorphism test, so every theorem
+    above is about what [runx] evaluates *)
+Theorem C13_trace_projection :
+  forall (iso : item -> item -> bool) (mode : attr_mode),
+  (forall rules, fst (gc_iterative_tr iso mode rules) = gc_iterative iso mode rules) /\
+  (forall data, fst (gc_fit_tr iso mode data) = gc_fit iso mode data) /\
+  (forall x ts, fst (lib_check_tr iso mode x ts) = lib_check iso mode x ts) /\
+  (forall data ts, fst (cluster_tr iso mode data ts) = cluster iso mode data ts) /\
+  (forall data ts bs picks, fst (fit_tr iso mode data ts bs picks) = fit iso mode data ts bs picks).
+Proof.
+  exact (fun iso mode => conj (gc_iterative_tr_fst iso mode) (conj (gc_fit_tr_fst iso mode) (conj (lib_check_tr_fst iso mode)
+           (conj (fun data ts => cluster_tr_fst iso mode data ts) (fit_tr_fst iso mode))))).
+Qed.
+Print Assumptions C13_trace_projection.
+
+(** ... and the two-slot entry point [step] of C13_Model.v is the instance [star; zero] of [stepx]: same library after every call *)
+Theorem C13_stepx_state :
+  forall (star zero : N) (mode : attr_mode) (pool : list item) (ts : list template) (o : op),
+  snd (stepx [star; zero] mode pool ts (OBase o)) = snd (step star zero mode pool ts o).
+Proof. exact stepx_state. Qed.
+Print Assumptions C13_stepx_state.
+
+(** lib_check tests exactly the templates with the entry's (normalised) attribute, in library order, up to and including the
+    first isomorphic one -- whose class the entry gets, library unchanged -- or all of them when none is isomorphic -- then
+    the entry is appended as the representative of its new class *)
+Theorem C13_lib_check_trace :
+  forall (iso : item -> item -> bool) (mode : attr_mode) (x : item) (ts : list template),
+  let sub := filter (fun t => zlist_eqb (bc_key mode (fst t)) (bc_key mode x)) ts in
+  let tested := snd (lib_check_tr iso mode x ts) in
+  (forall u, In u tested -> In u ts /\ bc_key mode (fst u) = bc_key mode x) /\
+  ((exists pre t post, sub = pre ++ t :: post /\ tested = pre ++ [t] /\ iso (fst t) x = true /\
+                       (forall u, In u pre -> iso (fst u) x = false) /\
+                       lib_check iso mode x ts = (snd t, ts)) \/
+   (tested = sub /\ (forall u, In u sub -> iso (fst u) x = false) /\
+    snd (lib_check iso mode x ts) = ts ++ [(x, fst (lib_check iso mode x ts))])).
+Proof. exact lib_check_trace. Qed.
+Print Assumptions C13_lib_check_trace.
+
+(** iterative_cluster: every test compares an earlier list position with a later one that carries the same normalised
+    attribute; no pair of positions is tested twice; hence at most n(n-1)/2 tests.  (Not proved: that the earlier position
+    is always the first member of its cluster -- compared on every case through the trace itself.) *)
+Theorem C13_gc_trace :
+  forall (iso : item -> item -> bool) (mode : attr_mode) (data : list item),
+  let tr := snd (gc_iterative_tr iso mode data) in
+  NoDup tr /\
+  (forall i j, In (i, j) tr ->
+     i < j < length data /\
+     exists xi xj, nth_error data i = Some xi /\ nth_error data j = Some xj /\ gc_key mode xi = gc_key mode xj) /\
+  2 * length tr <= length data * (length data - 1).
+Proof. exact gc_trace. Qed.
+Print Assumptions C13_gc_trace.
+
+(** the constructor contract of both classes inside the model: accepted iff the (lower-cased) backend is available and
+    names / defaults have the same length; ImportError exactly for the class's own optional backend (GraphCluster "mod",
+    BatchCluster "rule") when it is unavailable, ValueError otherwise; without the `mod` package only "nx" is available *)
+Theorem C13_ctor_contract :
+  forall (gc inst : bool) (nn nd : nat) (b : backend),
+  (ctor_contract gc inst nn nd b = CtorOk <-> available gc inst b = true /\ nn = nd) /\
+  (ctor_contract gc inst nn nd b = CtorImportError <->
+     available gc inst b = false /\ ((gc = true /\ b = BMod) \/ (gc = false /\ b = BRule))) /\
+  (available gc false b = true <-> b = BNx).
+Proof. exact ctor_contract_spec. Qed.
+Print Assumptions C13_ctor_contract.
+
+(** attribute selection: generic_node_match(names, defaults, eq) and generic_edge_match(edge_attribute, 1, eq) evaluated on
+    the RAW attribute dictionaries are the matchers of [graph_iso] on the selection [project13] (which [runr] applies to every
+    item), for any number of configured names *)
+Theorem C13_raw_matchers :
+  (forall (names defs : list N) (h p : rnattr13), length defs = length names ->
+     node_match_raw13 names defs h p =
+     attrs_match defs (map (fun k => LGraph.assoc k h) names) (map (fun k => LGraph.assoc k p) names)) /\
+  (forall (c : ccfg) (g1 g2 : rgraph13) (u v u' v' : N), length (cc_defs c) = length (cc_names c) ->
+     node_match true (cc_defs c) (label (project13 c g1) u) (label (project13 c g2) v) =
+       match label g1 u, label g2 v with
+       | Some a, Some b => node_match_raw13 (cc_names c) (cc_defs c) a b
+       | _, _ => false
+       end /\
+     match LGraph.adj (project13 c g1) u u', LGraph.adj (project13 c g2) v v' with
+     | Some a, Some b => edge_match true a b
+     | _, _ => false
+     end =
+     match LGraph.adj g1 u u', LGraph.adj g2 v v' with
+     | Some a, Some b => edge_match_raw13 (cc_edge c) a b
+     | _, _ => false
+     end) /\
+  (forall (c : ccfg) (g : rgraph13), node_ids (project13 c g) = node_ids g).
+Proof. exact (conj node_match_raw13_project (conj project13_matchers project13_ids)). Qed.
+Print Assumptions C13_raw_matchers.
